@@ -206,6 +206,10 @@ def linked_bin(repo=REPO):
     fix_local_calls(binu["bodies"])
     for k, b in binu["bodies"].items():
         merged["bodies"]["bin::" + k] = b
+    # types declared in the binary itself (e.g. a clap wrapper struct around the library's Cli)
+    for k, a in binu.get("adts", {}).items():
+        if a.get("dp") not in dp_adt and k not in merged["adts"]:
+            merged["adts"][k] = a
     # closures of main are referenced by their bin-local key
     def fix_closure(x):
         if isinstance(x, dict):
